@@ -57,6 +57,23 @@ Translation rules (everything else is refused: 'unsupported', never guessed)
         block (this is exactly where the model puts its `None => set_fault_flag s`);
       - stores into the working buffer are total: HandlerTieLib.store_c sets the flag when the
         index is outside the buffer; helper calls are total (the model helpers set the flag).
+  * A call of a function of cat.c that is NOT in the mapping table (e.g. a helper introduced by
+    a refactoring) is not guessed either: the callee is translated on the fly by the same rules,
+    as g_aux_<name>, and called; it then belongs to the GENERATED side of the tie (class
+    AuxRegistry).  If it cannot be translated the caller is 'unsupported'.
+  * Besides whole functions, three PARTS of functions are tied (see the tables of section 1):
+      - POST_CALL_FUNCTIONS: the switch over the code returned by a command handler, as a function
+        of that code (g_<f>_post D code s);
+      - DISPATCH_FUNCTIONS: the switch over the machine state of cat_service and of
+        unsolicited_events_service, as a table state -> (handler called, how the status is made);
+      - ENUM_VALUES: the numeric values of the cat_status / cat_return_state enumerators.
+
+Report (run_handler_tie): per function translated / unsupported (with the reason) / missing (no
+definition of that name in cat.c) / proved (every theorem of its block accepted and `Print
+Assumptions` says "Closed under the global context") / failed.  failed[fn] = {'witness': {...}}
+when generated and model DIFFER on a concrete input (printed with both results and the names of
+the state fields that differ), or {'witness': None, 'coqc': ...} when they agree on the whole test
+family: then only the proof script no longer applies (or they differ outside the family).
 """
 
 import json
@@ -80,7 +97,7 @@ COQ_TYPE = {"nat": "nat", "byte": "N", "lane": "N", "Z": "Z", "bool": "bool", "t
             "cstate": "cstate", "ustate": "ustate", "ctype": "ctype", "wstate": "wstate",
             "fsm": "fsm", "vaccess": "vaccess", "cmdrec": "cmd"}
 
-# ---- fields of struct cat_object (self->F): kind, projection, setter (None = never stored) ----
+# ---- fields of struct cat_object (self->F): kind, projection (read), setter (store) ----
 OBJ_FIELDS = {
     "state":               ("cstate", "k_state",      "setk_state"),
     "cr_flag":             ("bool",   "k_cr",         "setk_cr"),
@@ -192,12 +209,19 @@ BEQ = {"cstate": "cstate_beq", "ustate": "ustate_beq", "ctype": "ctype_beq",
        "wstate": "wstate_beq", "fsm": "fsm_beq", "vaccess": "vaccess_beq"}
 
 # ---- object-like macros of cat.c whose NAME is lost in the AST: mapped BY VALUE.  The #define
-#      lines are re-read from the source on every run; if one of them differs from this table,
-#      every literal of that kind is refused. ----
+#      lines are re-read from the source on every run; if one of a group differs from this table,
+#      every integer literal used at that kind is refused.  (Should they become real enumerators,
+#      they are mapped by name: see the two _enum lines below.) ----
 EXPECTED_DEFINES = {
-    "CAT_CMD_STATE_NOT_MATCH": 0, "CAT_CMD_STATE_PARTIAL_MATCH": 1, "CAT_CMD_STATE_FULL_MATCH": 2,
-    "CAT_WRITE_STATE_BEFORE": 0, "CAT_WRITE_STATE_MAIN_BUFFER": 1, "CAT_WRITE_STATE_AFTER": 2,
+    "lane": {"CAT_CMD_STATE_NOT_MATCH": 0, "CAT_CMD_STATE_PARTIAL_MATCH": 1,
+             "CAT_CMD_STATE_FULL_MATCH": 2},
+    "wstate": {"CAT_WRITE_STATE_BEFORE": 0, "CAT_WRITE_STATE_MAIN_BUFFER": 1,
+               "CAT_WRITE_STATE_AFTER": 2},
 }
+_enum("lane", "CAT_CMD_STATE_", "CMD_", ["NOT_MATCH"],
+      [("CAT_CMD_STATE_PARTIAL_MATCH", "CMD_PARTIAL"), ("CAT_CMD_STATE_FULL_MATCH", "CMD_FULL")])
+_enum("wstate", "CAT_WRITE_STATE_", "WS_", ["BEFORE", "AFTER"],
+      [("CAT_WRITE_STATE_MAIN_BUFFER", "WS_MAIN")])
 WSTATE_BY_VALUE = {0: "WS_BEFORE", 1: "WS_MAIN", 2: "WS_AFTER"}
 LANE_BY_VALUE = {0: "CMD_NOT_MATCH", 1: "CMD_PARTIAL", 2: "CMD_FULL"}    # Fsm.CMD_* : N
 
@@ -205,9 +229,11 @@ LANE_BY_VALUE = {0: "CMD_NOT_MATCH", 1: "CMD_PARTIAL", 2: "CMD_FULL"}    # Fsm.C
 CHAR_NAMES = {0: "ch_NUL", 10: "ch_LF", 13: "ch_CR", 44: "ch_COMMA", 61: "ch_EQ", 63: "ch_QM",
               65: "ch_A", 84: "ch_T"}
 
-# ---- helper calls.  Each helper is a function of cat.c that is tied on its own (here or in
-#      the leaf tie), or is modelled by definition (buffer sizes); a call is translated to a call
-#      of the MODEL function.  {s} = current state, {0},{1}.. = translated arguments after self.
+# ---- helper calls: a call of the C function is translated to a call of the MODEL function.
+#      {s} = current state, {0},{1}.. = translated arguments after self.  The helpers that are in
+#      HANDLER_FUNCTIONS are themselves tied by this tool, the LEAF_HELPERS by leaf_translate.py;
+#      for the others (loops, formatted printing, bit operations: ASSUMED_HELPERS, listed in every
+#      report) "C function ~ model function of that name" is an ASSUMPTION of this tie.
 # state transformers (called as statements):           model term,                argument kinds
 STATE_HELPERS = {
     "ack_error":                          ("ack_error {s}", []),
@@ -225,8 +251,6 @@ STATE_HELPERS = {
     "start_processing_format_read_args":  ("start_processing_format_read_args D {0} {s}", ["fsm"]),
     "start_processing_format_test_args":  ("start_processing_format_test_args D {0} {s}", ["fsm"]),
     "start_print_cmd_list":               ("start_print_cmd_list D {s}", []),
-    "print_cmd_list":                     ("print_cmd_list D {s}", []),
-    "check_unsolicited_buffers":          ("check_unsolicited_buffers D {s}", []),
     "set_cmd_state":                      ("set_cmd_state {s} {0} {1}", ["nat", "lane"]),
     "hold_exit":                          ("fst (hold_exit {s} {0})", ["Z"]),   # status ignored
 }
@@ -280,6 +304,47 @@ HANDLER_FUNCTIONS = [
     "ack_error", "ack_ok", "prepare_parse_command",
 ]
 
+ASSUMED_HELPERS = sorted(
+    (set(STATE_HELPERS) | set(VALUE_HELPERS) | set(PARTIAL_HELPERS))
+    - set(HANDLER_FUNCTIONS) - set(LEAF_HELPERS))
+
+# ---- the four loops that call a command handler: only what happens AFTER the call is translated
+#      (`switch (<the call>) { case CAT_RETURN_STATE_..: .. }`), as a function g_<fn>_post of the
+#      returned code; the call itself (arguments, what the handler may do) is not tied here.
+#      The call must be the scrutinee of a switch that is the first statement after the asserts.
+POST_CALL_FUNCTIONS = ["process_write_loop", "process_run_loop", "process_read_loop",
+                       "process_test_loop"]
+HANDLER_POINTER_CALLS = ("write", "run")          # switch (self->cmd->write(...)) / ->run(...)
+HANDLER_CALL_WRAPPERS = ("call_cmd_read_by_fsm", "call_cmd_test_by_fsm")
+
+# ---- the two dispatching switches.  Each arm must have one of the shapes below; it becomes an
+#      entry (type HandlerTieLib.dispatch) of a table  state -> entry.  H_<f> is the constructor of
+#      HandlerTieLib.hname for the C function f (a handler not listed there is refused).
+#        s = f(self[, FSM]); break;                              DAssign (H_f [FSM])
+#        f(self[, FSM]); s = CAT_STATUS_BUSY; break;             DBusy (H_f [FSM])
+#        if (is_unsolicited_buffer_empty(self) == false) { f(self); s = CAT_STATUS_BUSY; } break;
+#                                                                DIfEvents H_f
+#        s = CAT_STATUS_ERROR_UNKNOWN_STATE; break;              DUnknown
+#        break;                                                  DNothing
+DISPATCH_FUNCTIONS = {          # C function: (field the switch ranges over, Coq type of the state)
+    "cat_service": (("obj", "state"), "cstate"),
+    "unsolicited_events_service": (("uns", "state"), "ustate"),
+}
+ENUM_VALUES = "enum_values"     # pseudo function: the numeric values of the Z-valued enumerators
+DISPATCH_HANDLERS = {           # C function name -> takes a cat_fsm_type argument?
+    "error_state": False, "process_idle_state": False, "parse_prefix": False,
+    "parse_command": False, "update_command": False, "wait_read_acknowledge": False,
+    "search_command": False, "command_found": False, "command_not_found": False,
+    "parse_command_args": False, "parse_write_args": False, "format_read_args": True,
+    "wait_test_acknowledge": False, "format_test_args": True, "process_write_loop": False,
+    "process_read_loop": True, "process_test_loop": True, "process_run_loop": False,
+    "process_hold_state": False, "process_io_write_wait": False, "process_io_write": False,
+    "unsolicited_process_io_write_wait": False, "unsolicited_process_io_write": False,
+    "reset_state": False, "unsolicited_reset_state": False, "ack_ok": False,
+    "start_processing_format_read_args": True, "start_processing_format_test_args": True,
+    "end_processing_with_ok": True, "print_cmd_list": False, "check_unsolicited_buffers": False,
+}
+
 # ======================================================================================
 # 2. Getting the AST out of clang
 # ======================================================================================
@@ -315,42 +380,60 @@ def _fill_locations(obj, last):
 
 
 def load_translation_unit(src_dir):
-    """-> (dict name -> list of FunctionDecl nodes WITH a body, error text or None)."""
+    """-> (dict name -> list of FunctionDecl nodes WITH a body,
+           dict enumerator name -> its integer value (None if it cannot be determined),
+           error text or None)."""
     cat_c = os.path.join(src_dir, "cat.c")
     try:
         p = subprocess.run(["clang", "-fsyntax-only", "-Xclang", "-ast-dump=json",
                             "-I" + src_dir, cat_c],
                            capture_output=True, text=True, timeout=CLANG_TIMEOUT_S)
     except (OSError, subprocess.TimeoutExpired) as e:
-        return {}, "could not run clang: %r" % (e,)
+        return {}, {}, "could not run clang: %r" % (e,)
     if p.returncode != 0:
-        return {}, "clang failed (exit %d): %s" % (p.returncode, p.stderr.strip()[-800:])
+        return {}, {}, "clang failed (exit %d): %s" % (p.returncode, p.stderr.strip()[-800:])
     try:
         tu = json.loads(p.stdout)
     except ValueError as e:
-        return {}, "cannot parse clang's JSON output: %s" % (e,)
+        return {}, {}, "cannot parse clang's JSON output: %s" % (e,)
     _fill_locations(tu, {})
-    defs = {}
+    defs, enums = {}, {}
     for d in tu.get("inner", []):
         if d.get("kind") == "FunctionDecl" and \
                 any(c.get("kind") == "CompoundStmt" for c in d.get("inner", [])):
             defs.setdefault(d.get("name"), []).append(d)
-    return defs, None
+        if d.get("kind") == "EnumDecl":
+            prev = -1                   # C11 6.7.2.2: first enumerator 0, then previous + 1;
+            for c in d.get("inner", []):            # clang prints the value of explicit ones
+                if c.get("kind") != "EnumConstantDecl":
+                    continue
+                init = [x for x in c.get("inner", []) if "value" in x]
+                if c.get("inner") and not init:
+                    prev = None
+                elif init:
+                    prev = int(init[0]["value"])
+                elif prev is not None:
+                    prev += 1
+                enums[c.get("name")] = None if c.get("name") in enums else prev
+    return defs, enums, None
 
 
 def read_defines(src_dir):
-    """The object-like macros of EXPECTED_DEFINES as written in cat.c: name -> int (or None)."""
-    found = {}
+    """-> {'lane': bool, 'wstate': bool}: the object-like macros of that group are written in
+    cat.c exactly as EXPECTED_DEFINES says (each defined once, with that value)."""
     try:
         with open(os.path.join(src_dir, "cat.c")) as f:
             text = f.read()
     except OSError:
-        return found
-    for name in EXPECTED_DEFINES:
-        m = re.findall(r"^[ \t]*#[ \t]*define[ \t]+%s[ \t]+\(?(\d+)[uU]?\)?[ \t]*$" % name,
-                       text, re.M)
-        found[name] = int(m[0]) if len(m) == 1 else None
-    return found
+        text = ""
+    ok = {}
+    for group, names in EXPECTED_DEFINES.items():
+        ok[group] = True
+        for name, value in names.items():
+            m = re.findall(r"^[ \t]*#[ \t]*define[ \t]+%s[ \t]+\(?(\d+)[uU]?\)?[ \t]*$" % name,
+                           text, re.M)
+            ok[group] = ok[group] and len(m) == 1 and int(m[0]) == value
+    return ok
 
 
 def node_line(node):
@@ -401,6 +484,18 @@ def int_bits(node):
     return None
 
 
+def int_range(node):
+    """Value range of the integer/enum type of an expression node (enum: that of int)."""
+    bits = int_bits(node)
+    if bits is None:
+        refuse(node, "conversion to a non-integer type")
+    t = node.get("type", {})
+    spelled = t.get("desugaredQualType", t.get("qualType", ""))
+    if bits == 1 or "unsigned" in spelled:
+        return 0, 2 ** bits - 1
+    return -2 ** (bits - 1), 2 ** (bits - 1) - 1
+
+
 class Ex:
     """A lifted C expression: kind (section 1), Coq term; lit = python int for integer and
     character literals (which take the kind of what they are compared with / stored to)."""
@@ -423,7 +518,7 @@ def opnd(t):
             depth += 1
         elif tok == ")":
             depth -= 1
-        elif depth == 0 and (tok in ("if", "match", "fun", "let", "negb") or
+        elif depth == 0 and (tok in ("if", "match", "fun", "let") or
                              not re.fullmatch(r"[\w.']+(%\w+)?", tok)):
             return "(%s)" % t
     return t
@@ -475,12 +570,19 @@ class FunctionTranslator:
                                          # initialised with an integer constant expression
         self.written_locals = set()      # ids of the locals assigned somewhere in the function
         self.defined_in_tu = set()       # names of the functions DEFINED in the translation unit
+        self.post = False                # POST_CALL_FUNCTIONS: the handler call is the parameter `code`
+        self.post_used = False
+        self.aux = None                  # AuxRegistry: helpers of cat.c outside the mapping table
+        self.call_override = {}          # clang id of a call already evaluated -> its value (Ex)
 
     # ---- names -----------------------------------------------------------------------
     def fresh(self, base, bare_first=False):
-        """s1, s2, .. / t1, .. / kont1, ..; with bare_first: x_len, x_len2, .."""
+        """s1, s2, .. / t1, .. / kont1, ..; with bare_first (successive values of a C local):
+        x_len, x_len'2, ..  (no clash possible: a C identifier cannot contain a quote)."""
         self.counter[base] = n = self.counter.get(base, 0) + 1
-        return base if (bare_first and n == 1) else "%s%d" % (base, n)
+        if bare_first:
+            return base if n == 1 else "%s'%d" % (base, n)
+        return "%s%d" % (base, n)
 
     def budget(self, text):
         self.emitted += len(text)
@@ -503,9 +605,9 @@ class FunctionTranslator:
                 return Ex("Z", "%d%%Z" % n if n >= 0 else "(%d)%%Z" % n)
             if kind == "bool" and n in (0, 1):
                 return Ex("bool", "true" if n else "false")
-            if kind == "lane" and n in LANE_BY_VALUE and self.defines_ok:
+            if kind == "lane" and n in LANE_BY_VALUE and self.defines_ok["lane"]:
                 return Ex("lane", LANE_BY_VALUE[n])
-            if kind == "wstate" and n in WSTATE_BY_VALUE and self.defines_ok:
+            if kind == "wstate" and n in WSTATE_BY_VALUE and self.defines_ok["wstate"]:
                 return Ex("wstate", WSTATE_BY_VALUE[n])
             refuse(node, "integer literal %d used where a %s is expected" % (n, kind))
         refuse(node, "a %s is used where a %s is expected" % (ex.kind, kind))
@@ -627,6 +729,8 @@ class FunctionTranslator:
 
     def value_call(self, node, s, env, G):
         name = self.callee_name(node)
+        if node.get("id") in self.call_override:
+            return self.call_override[node["id"]]
         if name in VALUE_HELPERS:
             k, tmpl, kinds = VALUE_HELPERS[name]
             args = self.call_args(node, name, kinds, s, env, G, leaf=name in LEAF_HELPERS)
@@ -668,6 +772,10 @@ class FunctionTranslator:
                     src, dst = int_bits(strip(sub)), int_bits(node)
                     if src is None or dst is None or dst < src:
                         refuse(node, "narrowing or non-integer conversion")
+                if ck == "IntegralCast" and e.kind == "int":
+                    lo, hi = int_range(node)
+                    if not lo <= e.lit <= hi:
+                        refuse(node, "constant %d converted to a type that cannot hold it" % e.lit)
                 return e
             if ck in ("NullToPointer",):
                 return Ex("null", None)
@@ -1107,8 +1215,7 @@ class StatementTranslator(FunctionTranslator):
         bits = int_bits(d)
         if e.kind != "int" or bits is None:
             return False
-        unsigned = "unsigned" in d.get("type", {}).get("desugaredQualType", d["type"].get("qualType", ""))
-        lo, hi = (0, 2 ** bits - 1) if unsigned else (-2 ** (bits - 1), 2 ** (bits - 1) - 1)
+        lo, hi = int_range(d)
         if not lo <= e.lit <= hi:
             refuse(d, "constant %d does not fit the type of '%s'" % (e.lit, d.get("name")))
         self.const_locals[d["id"]] = e.lit
@@ -1149,7 +1256,36 @@ class StatementTranslator(FunctionTranslator):
         for c in walk(n):
             if c.get("kind") == "UnaryOperator" and c.get("opcode") in ("++", "--"):
                 refuse(c, "side effect inside a condition (only `++self->f CMP e` is supported)")
+        call = self.leading_call(n)
+        if call is not None and self.callee_name(call) not in VALUE_HELPERS \
+                and self.callee_name(call) not in PARTIAL_HELPERS \
+                and self.callee_name(call) not in LIBRARY_CALLS:
+            # the condition starts by calling a helper outside the mapping table: it is run first
+            # (it may modify *self), the test is then made on its result in the new state
+            sig = self.aux_signature(call, self.callee_name(call))
+            if sig["mode"] != "pair":
+                refuse(call, "the value of a void/constant-status helper is tested")
+            r, s1 = self.fresh("r"), self.fresh("s")
+            self.origin[s1] = (self.origin.get(s, (None, False))[0], False)
+            text = "let %s := %s in\nlet %s := fst %s in\n" % (r, self.aux_call(call, sig, s, env, G), s1, r)
+            self.call_override[call["id"]] = Ex(sig["ret_kind"], "snd %s" % r)
+            return text, s1, self.truth(n, s1, env, G)
         return "", s, self.truth(n, s, env, G)
+
+    def leading_call(self, n):
+        """The call in  f(..) / !f(..) / f(..) CMP <literal or enumerator>,  else None."""
+        n = strip(n)
+        if n.get("kind") == "UnaryOperator" and n.get("opcode") == "!":
+            n = strip(n["inner"][0])
+        elif n.get("kind") == "BinaryOperator" and n.get("opcode") in ("==", "!=", "<", "<=", ">", ">="):
+            rhs = strip_casts(n["inner"][1])
+            if rhs.get("kind") not in ("IntegerLiteral", "CharacterLiteral", "DeclRefExpr") or \
+                    (rhs.get("kind") == "DeclRefExpr" and
+                     rhs.get("referencedDecl", {}).get("kind") != "EnumConstantDecl"):
+                return None
+            n = strip(n["inner"][0])
+        n = strip_casts(n)
+        return n if n.get("kind") == "CallExpr" and self.callee_name(n) else None
 
     # ---- effects ------------------------------------------------------------------------------------
     def setter(self, node, tgt):
@@ -1164,6 +1300,21 @@ class StatementTranslator(FunctionTranslator):
         if f == ("obj", "cmd"):
             self.assigns_obj_cmd = True
         return f, table[f[1]]
+
+    def aux_signature(self, node, name):
+        """A function of cat.c that is not in the mapping table is translated on the fly, like
+        the handlers (it is then part of the GENERATED side of the tie, nothing is trusted)."""
+        if self.aux is None:
+            refuse(node, "call of '%s', which is not in the mapping table" % name)
+        try:
+            return self.aux.get(name, self.reading)
+        except Unsupported as e:
+            refuse(node, "call of '%s', which is not in the mapping table and cannot be "
+                         "translated as an auxiliary function: %s" % (name, e))
+
+    def aux_call(self, node, sig, s, env, G):
+        args = self.call_args(node, sig["c_name"], sig["param_kinds"], s, env, G)
+        return " ".join([sig["coq_name"], "D"] + args + (["ch"] if self.reading else []) + [s])
 
     def same_cmd(self, s, s1):
         """s1 is s after a store that does not touch self->cmd."""
@@ -1188,13 +1339,17 @@ class StatementTranslator(FunctionTranslator):
             name = self.callee_name(n)
             if name in ("strncpy", "memset"):
                 return self.fill_buffer(n, name, s, env, G)
-            if name not in STATE_HELPERS:
-                refuse(n, "call of '%s', which is not in the mapping table" % name)
-            tmpl, kinds = STATE_HELPERS[name]
-            args = self.call_args(n, name, kinds, s, env, G)
+            if name in STATE_HELPERS:
+                tmpl, kinds = STATE_HELPERS[name]
+                term = tmpl.format(*self.call_args(n, name, kinds, s, env, G), s=s)
+            else:
+                sig = self.aux_signature(n, name)
+                term = self.aux_call(n, sig, s, env, G)
+                if sig["mode"] == "pair":               # the returned value is not used
+                    term = "fst (%s)" % term
             s1 = self.fresh("s")
             self.origin[s1] = (self.origin.get(s, (None, False))[0], False)
-            return "let %s := %s in\n" % (s1, tmpl.format(*args, s=s)), s1, env
+            return "let %s := %s in\n" % (s1, term), s1, env
         if kind == "BinaryOperator" and n.get("opcode") == "=":
             tgt, rhs = strip(n["inner"][0]), n["inner"][1]
             if tgt.get("kind") == "DeclRefExpr":                      # local variable
@@ -1303,6 +1458,20 @@ class StatementTranslator(FunctionTranslator):
         refuse(node, "store to ->var other than c->var / &c->var[e]")
 
     # ---- switch ---------------------------------------------------------------------------------------
+    def is_handler_call(self, node):
+        """self->cmd->write(..) / self->cmd->run(..) / call_cmd_read_by_fsm(self, fsm) / .._test_.."""
+        n = strip_casts(node)
+        if n.get("kind") != "CallExpr":
+            return False
+        if self.callee_name(n) in HANDLER_CALL_WRAPPERS:
+            return True
+        callee = strip_casts(n["inner"][0])
+        f = self.field_of(callee) if callee.get("kind") == "MemberExpr" else None
+        if not (f and f[0] == "cmd" and f[1] in HANDLER_POINTER_CALLS):
+            return False
+        base = self.field_of(strip_casts(f[2]))
+        return base == ("obj", "cmd")
+
     def switch(self, S, rest, s, env, kb, kbrk_outer, later):
         if S.get("hasInit") or S.get("hasVar") or len(S.get("inner", [])) != 2:
             refuse(S, "switch with initialiser/declaration")
@@ -1311,7 +1480,11 @@ class StatementTranslator(FunctionTranslator):
         for c in walk(scrut_node):
             if c.get("kind") == "UnaryOperator" and c.get("opcode") in ("++", "--"):
                 refuse(c, "side effect in the scrutinee of a switch")
-        e = self.ex(scrut_node, s, env, G)
+        if self.post and not self.post_used and s == "s" and self.is_handler_call(scrut_node):
+            self.post_used = True
+            e = Ex("Z", "code")
+        else:
+            e = self.ex(scrut_node, s, env, G)
         if body.get("kind") != "CompoundStmt":
             refuse(S, "switch whose body is not a compound statement")
         arms, cur = [], None                     # arm = [labels (None = default), statements]
@@ -1462,24 +1635,63 @@ def split_reading_prologue(tr, items):
     return rest
 
 
-def translate_function(fn, decls, defines_ok, defined_in_tu=frozenset()):
-    """-> (coq text or None, report entry)."""
+class AuxRegistry:
+    """Functions of cat.c that a handler calls and that are NOT in the mapping table (typically
+    helpers introduced by a refactoring).  They are translated like the handlers, as
+    g_aux_<name> (g_aux_<name>_rd, with the extra parameter ch, when called from the body of a
+    reading state), emitted before their callers and unfolded by the tie tactic: they belong to
+    the generated side of the tie."""
+
+    def __init__(self, defs, defines_ok):
+        self.defs, self.defines_ok = defs, defines_ok
+        self.done, self.in_progress, self.texts = {}, set(), []
+
+    def get(self, name, reading):
+        key = (name, reading)
+        if key in self.in_progress:
+            raise Unsupported("recursive function")
+        if key not in self.done:
+            if name in HANDLER_POINTER_CALLS or name is None or name not in self.defs:
+                raise Unsupported("not a function defined in cat.c")
+            self.in_progress.add(key)
+            try:
+                text, rep = translate_function(name, self.defs[name], self.defines_ok,
+                                               frozenset(self.defs), aux=self,
+                                               as_aux="_rd" if reading else "")
+            finally:
+                self.in_progress.discard(key)
+            if text:
+                self.texts.append(text)
+            self.done[key] = rep
+        rep = self.done[key]
+        if rep["status"] != "translated":
+            raise Unsupported(rep.get("why", rep["status"]))
+        return rep
+
+    def coq_names(self):
+        return [r["coq_name"] for r in self.done.values() if r["status"] == "translated"]
+
+
+def translate_function(fn, decls, defines_ok, defined_in_tu=frozenset(), aux=None, as_aux=None):
+    """-> (coq text or None, report entry).  as_aux: None for a tied function; '' or '_rd' for an
+    auxiliary function ('_rd': called from the body of a reading state)."""
     if not decls:
         return None, {"status": "missing"}
     try:
         if len(decls) != 1:
             raise Unsupported("several definitions named %s" % fn)
         d = decls[0]
-        reading = fn in READING_STATES
+        prologue = fn in READING_STATES and as_aux is None
+        reading = prologue or as_aux == "_rd"
         tr = StatementTranslator(fn, d, defines_ok, reading)
-        tr.defined_in_tu = defined_in_tu
+        tr.defined_in_tu, tr.aux = defined_in_tu, aux
         params = [c for c in d["inner"] if c.get("kind") == "ParmVarDecl"]
         body = [c for c in d["inner"] if c.get("kind") == "CompoundStmt"][0]
         if d.get("variadic") or not params or \
                 params[0].get("type", {}).get("qualType") != "struct cat_object *":
             refuse(d, "first parameter is not `struct cat_object *self`")
         tr.self_id = params[0]["id"]
-        env, binders = {}, []
+        env, binders, param_kinds = {}, [], []
         for p in params[1:]:
             q = " ".join(w for w in p.get("type", {}).get("qualType", "").split() if w != "const")
             if q not in PARAM_KINDS:
@@ -1488,9 +1700,17 @@ def translate_function(fn, decls, defines_ok, defined_in_tu=frozenset()):
             env[p["id"]] = (name, PARAM_KINDS[q])
             tr.local_names[p["id"]] = p.get("name", "anon")
             binders.append("(%s : %s)" % (name, COQ_TYPE[PARAM_KINDS[q]]))
+            param_kinds.append(PARAM_KINDS[q])
         items = body.get("inner", [])
         tr.written_locals = local_writes(items)
-        if reading:
+        post = fn in POST_CALL_FUNCTIONS and as_aux is None
+        if post:
+            tr.post = True
+            first = [i for i in items if not is_assert(i)]
+            if not first or first[0].get("kind") != "SwitchStmt" \
+                    or not tr.is_handler_call(first[0]["inner"][0]):
+                raise Unsupported("the first statement is not `switch (<call of the command handler>)`")
+        if prologue:
             items = split_reading_prologue(tr, items)
         find_mode(tr, d, items)
         term = tr.block(items, "s", env, tr.function_end(), None, set())
@@ -1503,16 +1723,176 @@ def translate_function(fn, decls, defines_ok, defined_in_tu=frozenset()):
             term = "match cmd_of D ATCMD s with\n| None => %s\n| Some c =>\n%s\nend" % (fault, ind(term))
         first, last = node_line(d), d.get("range", {}).get("end", {})
         last = last.get("expansionLoc", last).get("line")
-        gname = "g_%s%s" % (fn, "_body" if reading else "")
-        ch = ["(ch : N)"] if reading else []
+        if post and not tr.post_used:
+            raise Unsupported("the handler call was not found where it is expected")
+        if as_aux is not None:
+            gname = "g_aux_%s%s" % (fn, as_aux)
+        else:
+            gname = "g_%s%s" % (fn, "_body" if reading else "_post" if post else "")
+        ch = ["(ch : N)"] if reading else ["(code : Z)"] if post else []
         rtype = "state * %s" % COQ_TYPE[tr.ret_kind] if tr.mode == "pair" else "state"
         text = "(* cat.c:%s-%s  %s *)\nDefinition %s %s : %s :=\n%s.\n" % (
             first, last, d.get("type", {}).get("qualType", "").replace("*)", "* )"), gname,
             " ".join(["(D : desc)"] + binders + ch + ["(s : state)"]), rtype, ind(term))
         if tr.mode == "const":
             text += "Definition %s_status : Z := %s.\n" % (gname, tr.const_status)
-        return text, {"status": "translated", "coq_name": gname, "lines": [first, last],
-                      "mode": tr.mode, "const_status": tr.const_status}
+        return text, {"status": "translated", "coq_name": gname, "c_name": fn, "lines": [first, last],
+                      "mode": tr.mode, "const_status": tr.const_status, "ret_kind": tr.ret_kind,
+                      "param_kinds": param_kinds}
+    except Unsupported as e:
+        return None, {"status": "unsupported", "why": str(e)}
+    except (KeyError, IndexError, TypeError, ValueError, AttributeError) as e:
+        return None, {"status": "unsupported", "why": "unexpected AST shape: %r" % (e,)}
+
+
+def translate_enum_values(enums):
+    """The enumerators that the model represents by INTEGERS (cat_status, cat_return_state), with
+    the values they have in cat.h: tied to the constants ST_* / RC_* of Fsm.v."""
+    pairs = []
+    for c_name, (kind, coq_name) in ENUMERATORS.items():
+        if kind != "Z":
+            continue
+        if c_name not in enums:
+            return None, {"status": "missing"}
+        if enums[c_name] is None:
+            return None, {"status": "unsupported",
+                          "why": "cannot determine the value of enumerator %s" % c_name}
+        v = enums[c_name]
+        pairs.append("(%s, %s)" % (coq_name, "%d%%Z" % v if v >= 0 else "(%d)%%Z" % v))
+    text = "(* cat.h: (model constant, value of the C enumerator of that name) *)\n" \
+           "Definition g_enum_values : list (Z * Z) :=\n  [%s].\n" % ";\n   ".join(pairs)
+    return text, {"status": "translated", "coq_name": "g_enum_values", "lines": [None, None],
+                  "mode": "table", "const_status": None}
+
+
+def translate_dispatch(fn, decls):
+    """The dispatching switch of cat_service / unsolicited_events_service as a table."""
+    if not decls:
+        return None, {"status": "missing"}
+    try:
+        if len(decls) != 1:
+            raise Unsupported("several definitions named %s" % fn)
+        d = decls[0]
+        field, coq_type = DISPATCH_FUNCTIONS[fn]
+        tr = StatementTranslator(fn, d, {"lane": False, "wstate": False}, False)
+        params = [c for c in d["inner"] if c.get("kind") == "ParmVarDecl"]
+        body = [c for c in d["inner"] if c.get("kind") == "CompoundStmt"][0]
+        if len(params) != 1 or params[0].get("type", {}).get("qualType") != "struct cat_object *":
+            refuse(d, "the only parameter is not `struct cat_object *self`")
+        tr.self_id = params[0]["id"]
+        switches = []
+        for item in body.get("inner", []):
+            if item.get("kind") == "SwitchStmt":
+                m = strip_casts(item["inner"][0])
+                if m.get("kind") == "MemberExpr" and tr.field_of(m) == field:
+                    switches.append(item)
+        if len(switches) != 1:
+            refuse(d, "expected exactly one top-level switch over the state field, found %d" % len(switches))
+        sw = switches[0]
+        # the status variable: the local the function returns in its last statement
+        last = body.get("inner", [None])[-1] or {}
+        ret = strip_casts(last["inner"][0]) if last.get("kind") == "ReturnStmt" and last.get("inner") else {}
+        status_id = ret.get("referencedDecl", {}).get("id") if ret.get("kind") == "DeclRefExpr" else None
+        if status_id is None or ret["referencedDecl"].get("kind") != "VarDecl":
+            refuse(d, "the function does not end with `return <local variable>;`")
+
+        def is_status_var(n):
+            n = strip(n)
+            return n.get("kind") == "DeclRefExpr" and n.get("referencedDecl", {}).get("id") == status_id
+
+        def handler_call(n):
+            """f(self[, FSM]) -> 'H_f' / '(H_f FSM)', or None."""
+            n = strip(n)
+            if n.get("kind") != "CallExpr":
+                return None
+            name, args = tr.callee_name(n), n["inner"][1:]
+            if name not in DISPATCH_HANDLERS or not args or not tr.is_self(args[0]):
+                refuse(n, "call of '%s', which is not a handler of the dispatch vocabulary" % name)
+            if DISPATCH_HANDLERS[name]:
+                if len(args) != 2:
+                    refuse(n, "handler %s called without its fsm argument" % name)
+                return "(H_%s %s)" % (name, tr.value(args[1], "fsm", "s", {}, []))
+            if len(args) != 1:
+                refuse(n, "handler %s called with extra arguments" % name)
+            return "H_" + name
+
+        def assign_to_status(n):
+            """s = <rhs>  ->  rhs node, or None."""
+            n = strip(n)
+            if n.get("kind") == "BinaryOperator" and n.get("opcode") == "=" and is_status_var(n["inner"][0]):
+                return n["inner"][1]
+            return None
+
+        def enumerator(n):
+            return strip_casts(n).get("referencedDecl", {}).get("name")
+
+        def busy_call_pair(stmts):
+            if len(stmts) == 2:
+                h, rhs = handler_call(stmts[0]), assign_to_status(stmts[1])
+                if h and rhs is not None and enumerator(rhs) == "CAT_STATUS_BUSY":
+                    return h
+            return None
+
+        def entry(stmts, where):
+            if not stmts or stmts[-1].get("kind") != "BreakStmt":
+                refuse(where, "an arm of the dispatching switch does not end with break")
+            stmts = stmts[:-1]
+            if not stmts:
+                return "DNothing"
+            if len(stmts) == 1:
+                rhs = assign_to_status(stmts[0])
+                if rhs is not None:
+                    if strip_casts(rhs).get("kind") == "CallExpr":
+                        return "DAssign %s" % handler_call(strip_casts(rhs))
+                    if enumerator(rhs) == "CAT_STATUS_ERROR_UNKNOWN_STATE":
+                        return "DUnknown"
+                if stmts[0].get("kind") == "IfStmt" and len(stmts[0]["inner"]) == 2:
+                    c, then = strip(stmts[0]["inner"][0]), stmts[0]["inner"][1]
+                    if c.get("opcode") == "==" and strip_casts(c["inner"][0]).get("kind") == "CallExpr" \
+                            and tr.callee_name(strip_casts(c["inner"][0])) == "is_unsolicited_buffer_empty" \
+                            and tr.truth(c, "s", {}, []) == "negb (ring_empty s)":
+                        inner = then.get("inner", []) if then.get("kind") == "CompoundStmt" else [then]
+                        h = busy_call_pair(inner)
+                        if h:
+                            return "DIfEvents %s" % h
+            h = busy_call_pair(stmts)
+            if h:
+                return "DBusy %s" % h
+            refuse(where, "an arm of the dispatching switch has none of the supported shapes")
+
+        arms, cur = [], None
+        for item in sw["inner"][1].get("inner", []):
+            labels = []
+            while item.get("kind") in ("CaseStmt", "DefaultStmt"):
+                labels.append(item["inner"][0] if item["kind"] == "CaseStmt" else None)
+                item = item["inner"][-1]
+            if labels:
+                cur = [labels, []]
+                arms.append(cur)
+            elif cur is None:
+                refuse(item, "statement before the first case label")
+            cur[1].append(item)
+        lines, seen, default = [], set(), None
+        for labels, stmts in arms:
+            e = entry(stmts, labels[0] or sw)
+            for lab in labels:
+                if lab is None:
+                    default = e
+                    continue
+                ex = tr.ex(lab, "s", {}, [])
+                if ex.kind != coq_type or ex.term in seen:
+                    refuse(lab, "case label of the wrong enumeration, or duplicated")
+                seen.add(ex.term)
+                lines.append("  | %s => %s" % (ex.term, e))
+        if seen != set(CONSTRUCTORS[coq_type]):
+            lines.append("  | _ => %s" % (default or "DNothing"))
+        gname = "g_%s_dispatch" % fn
+        first = node_line(sw)
+        text = "(* cat.c:%s  the switch over %s of %s *)\nDefinition %s (x : %s) : dispatch :=\n  match x with\n%s\n  end.\n" % (
+            first, "self->" + ("unsolicited_fsm." if field[0] == "uns" else "") + field[1], fn,
+            gname, coq_type, "\n".join(lines))
+        return text, {"status": "translated", "coq_name": gname, "lines": [first, first],
+                      "mode": "dispatch", "const_status": None}
     except Unsupported as e:
         return None, {"status": "unsupported", "why": str(e)}
     except (KeyError, IndexError, TypeError, ValueError, AttributeError) as e:
@@ -1522,20 +1902,35 @@ def translate_function(fn, decls, defines_ok, defined_in_tu=frozenset()):
 def translate(repo_src_dir, functions=None):
     """Translate the handler functions of <repo_src_dir>/cat.c.
     -> (coq_text, report); report[fn]['status'] in {'translated','unsupported','missing'}."""
-    functions = HANDLER_FUNCTIONS if functions is None else functions
+    functions = HANDLER_FUNCTIONS + POST_CALL_FUNCTIONS + list(DISPATCH_FUNCTIONS) + [ENUM_VALUES] \
+        if functions is None else functions
     src = os.path.join(repo_src_dir, "cat.c")
     header = GEN_HEADER % {"source": src, "lp": GEN_LOGICAL_PATH}
-    defs, err = load_translation_unit(repo_src_dir)
+    defs, enums, err = load_translation_unit(repo_src_dir)
     if err:
         return header, {fn: {"status": "unsupported", "why": err} for fn in functions}
-    defines = read_defines(repo_src_dir)
-    defines_ok = all(defines.get(k) == v for k, v in EXPECTED_DEFINES.items())
+    defines_ok = read_defines(repo_src_dir)
     report, texts = {}, []
+    aux = AuxRegistry(defs, defines_ok)
     for fn in functions:
-        text, report[fn] = translate_function(fn, defs.get(fn, []), defines_ok, frozenset(defs))
+        if fn == ENUM_VALUES:
+            text, report[fn] = translate_enum_values(enums)
+        elif fn in DISPATCH_FUNCTIONS:
+            text, report[fn] = translate_dispatch(fn, defs.get(fn, []))
+        else:
+            text, report[fn] = translate_function(fn, defs.get(fn, []), defines_ok, frozenset(defs),
+                                                  aux=aux)
         if text:
             texts.append(text)
-    return header + "\n" + "\n".join(texts), report
+            report[fn]["auxiliary"] = sorted(n for n in aux.coq_names()
+                                             if re.search(r"\b%s\b" % n, text))
+    aux_text = ""
+    if aux.coq_names():
+        aux_text = ("(* ---- helpers of cat.c that are not in the mapping table, translated on the "
+                    "fly ---- *)\n" + "\n".join(aux.texts) +
+                    "\n(* the tie tactic unfolds them *)\n"
+                    "Ltac tie_unfold_gen ::= cbv delta [%s].\n\n" % " ".join(aux.coq_names()))
+    return header + "\n" + aux_text + "\n".join(texts), report
 
 
 
@@ -1617,8 +2012,8 @@ def find_witness(segs, fn, coq_dir, workdir):
         w[key[2:]] = mm.group(1).strip() if mm else None
     if w.get("differ_in"):
         w["differ_in"] = re.findall(r'"([^"]*)"', w["differ_in"])
-    w["note"] = ("input = (extra argument or character, if any, then) (index of the test "
-                 "descriptor in HandlerTieLib.tD, state); records as printed by Coq")
+    w["note"] = ("as printed by Coq.  Handlers: input = ([extra argument or character,] (index of "
+                 "the test descriptor in HandlerTieLib.tD, state)); tables: input = the key")
     return w
 
 
@@ -1643,6 +2038,10 @@ def run_handler_tie(repo_src_dir, workdir, coq_dir, template_path=None):
         "missing": [f for f in fns if report[f]["status"] == "missing"],
         "proved": [], "failed": {},
         "lines": {f: report[f]["lines"] for f in translated},
+        # helpers whose correspondence with the model function of the same name is assumed
+        "assumed_helpers": ASSUMED_HELPERS,
+        # helpers outside the mapping table that were translated on the fly, per caller
+        "auxiliary": {f: report[f]["auxiliary"] for f in translated if report[f].get("auxiliary")},
         "files": {"generated": os.path.join(workdir, "HandlerGen.v"),
                   "tie": os.path.join(workdir, "HandlerTie.v")},
     }
